@@ -678,3 +678,49 @@ def cdiv_concrete(p, m):
     ok = (R * R + I * I) * Fraction(4) ** prec <= 16 * (a * a + b * b)
     okc = all(t == FZERO or O.canonical_concrete(tuple(t), prec) for t in r)
     return ok and okc, '%s(%r, %r, %d, %r) = %r: |q*w - z| / |z| = %.3g * 2**-%d' % (fn, z, w, prec, rnd, r, float(((R * R + I * I) / (a * a + b * b))) ** 0.5 * 2 ** prec, prec)
+
+
+# ------------------------------------------------------------------------------ integer powers of special complex values
+def cpow_int_special(p):
+    """mpc_pow_int(z, n, prec, rnd) where one part of z is a special value (zero / +inf / -inf / nan), the other a special or a
+    symbolic regular number, for a concrete exponent n: every part of the result is stored in canonical form
+    (one of the four special encodings, or a normalised regular number of at most prec bits)."""
+    from checks.fam_arith import SPECIALS
+    prec, rnd = p['prec'], p['rnd']
+    n = p['n']
+    ob = Ob(wbump(p, 2 * (abs(n) + 1) * (p.get('bc', 3) + 2) + 2 * prec + 120), timeout_s=p.get('_t', 60), mul_precise_bits=4096)
+    parts = []
+    for nm, kind in (('re', p['re']), ('im', p['im'])):
+        parts.append(ob.mpf(nm, p.get('bc', 3)) if kind == 'fin' else SPECIALS[kind])
+    Lc = libmpc()
+    outs = ob.run(Lc.mpc_pow_int, [tuple(parts), n, prec, rnd])
+
+    def canon(t):
+        if not isinstance(t, tuple) or len(t) != 4:
+            return False
+        return z3.Or([is_tuple(t, s_) for s_ in (FZERO, O.FINF, O.FNINF, O.FNAN)] + [O.canonical(t, prec)])
+
+    def good(val, st):
+        if not isinstance(val, tuple) or len(val) != 2:
+            return False
+        return [canon(val[0]), canon(val[1])]
+
+    def good_raise(exc, st):
+        # 0 ** negative: ZeroDivisionError is the documented outcome
+        return [z3.BoolVal(isinstance(exc, ZeroDivisionError))]
+    return finish(ob, ob.prove(outs, good, good_raise))
+
+
+def cpow_int_special_concrete(p, m):
+    from checks.fam_arith import SPECIALS
+    prec, rnd = p['prec'], p['rnd']
+    parts = []
+    for nm, kind in (('re', p['re']), ('im', p['im'])):
+        parts.append(mk_tuple(m, nm, p.get('bc', 3)) if kind == 'fin' else SPECIALS[kind])
+    n = p['n']
+    try:
+        r = libmpc().mpc_pow_int(tuple(parts), n, prec, rnd)
+    except ZeroDivisionError:
+        return True, ''
+    bad = [t for t in r if not O.canonical_concrete(tuple(t), prec)]
+    return not bad, 'mpc_pow_int(%r, %d, %d, %r) = %r: part %r is not in canonical form' % (tuple(parts), n, prec, rnd, r, bad[:1])
